@@ -109,6 +109,13 @@ Definition known_pid0_unlisted (p : plat) (meth site : string) (c : cond) : bool
   | _ => false
   end.
 
+(* finding: Windows memory_maps() converts the OSError of proc_memory_maps() only; a failure of
+   QueryDosDevice() (path conversion of a row) leaves the generator as the bare error *)
+Definition known_win_mmaps (p : plat) (meth site : string) : bool :=
+  match p with Windows => g_win_mmaps_dos meth site | _ => false end.
+Definition known_class (p : plat) (meth site : string) (c : cond) : bool :=
+  known_pid0_unlisted p meth site c || known_win_mmaps p meth site.
+
 (* native status codes that mean "zombie" (sys/proc.h of each system; OpenBSD reports dead
    processes as SDEAD, SZOMB is unused there but kept) *)
 Definition doc_zombie_codes (p : plat) : list string :=
@@ -153,7 +160,7 @@ Definition pair_demanded (p : plat) (meth site1 site2 : string) (e1 e2 : err) (s
     else contract p meth site2 (Build_cond e2 s z)
   else demanded p meth site1 (Build_cond e1 s z).
 Definition pair_known (p : plat) (meth site1 site2 : string) (e1 e2 : err) (s : pstate) (z : bool) : bool :=
-  known_pid0_unlisted p meth site1 (Build_cond e1 s z) || known_pid0_unlisted p meth site2 (Build_cond e2 s z).
+  known_class p meth site1 (Build_cond e1 s z) || known_class p meth site2 (Build_cond e2 s z).
 
 (* ERROR_PARTIAL_COPY k times, then success or another error: 33 attempts, then AccessDenied *)
 Definition retry_demanded (meth site : string) (k : Z) (then_ : option err) (s : pstate) (z : bool) : option res :=
@@ -219,7 +226,8 @@ Inductive dsrc :=
 | DMap (map attr : string) (mul : Z)        (* attribute attr of the one-shot record *)
 | DCall (fn : string) (idx : Z) (mul : Z)   (* element idx of what native fn returns *)
 | DConst (z : Z)
-| DNone.
+| DNone
+| DFun (fn : string) (idxs : list Z).         (* derived from exactly these elements of what fn returns *)
 
 Record dlayout := { d_shape : shape; d_type : string; d_fields : list (string * dsrc) }.
 
@@ -232,6 +240,14 @@ Definition pthread_l : dlayout :=
   listof "pthread" [("id", C "proc_threads" 0); ("user_time", C "proc_threads" 1); ("system_time", C "proc_threads" 2)]%string.
 
 Local Open Scope string_scope.
+(* answers that are lists / dicts of strings or rows: the native answer, element by element *)
+Definition cmdline_l (fn : string) : dlayout := tuple "list" [("0", C fn 0); ("1", C fn 1)].
+Definition environ_l : dlayout := tuple "dict" [("key", C "proc_environ" 0); ("value", C "proc_environ" 1)].
+(* pconn(fd, family, type, laddr, raddr, status) from the native row (fd, family, type, laddr, raddr, status[, pid]);
+   status is CONN_NONE unless the type is SOCK_STREAM, hence its dependence on the type slot too *)
+Definition pconn_l (fn : string) (status_from : list Z) : dlayout :=
+  listof "pconn" [("fd", C fn 0); ("family", DFun fn [1]); ("type", DFun fn [2]); ("laddr", DFun fn [3]);
+                  ("raddr", DFun fn [4]); ("status", DFun fn status_from)].
 Definition K := "kinfo_proc_map".
 Definition T := "pidtaskinfo_map".
 Definition I := "proc_info_map".
@@ -263,6 +279,17 @@ Definition doc_layout_bsd (p : plat) (meth : string) : option dlayout :=
     Some (listof "popenfile" [("path", C "proc_open_files" 0); ("fd", C "proc_open_files" 1)])
   else if seq meth "num_fds" then Some (scalar (C "proc_num_fds" 0))
   else if seq meth "nice_get" then Some (scalar (C "getpriority" 0))
+  else if seq meth "cmdline" then Some (cmdline_l "proc_cmdline")
+  else if seq meth "environ" then Some environ_l
+  else if seq meth "net_connections" then
+    Some (pconn_l (match p with FreeBSD => "proc_net_connections" | _ => "net_connections" end) [2; 5])
+  else if seq meth "memory_maps" then
+    match p with
+    | FreeBSD => Some (listof "tuple" [("0", C "proc_memory_maps" 0); ("1", C "proc_memory_maps" 1); ("2", C "proc_memory_maps" 2);
+                                       ("3", C "proc_memory_maps" 3); ("4", C "proc_memory_maps" 4); ("5", C "proc_memory_maps" 5);
+                                       ("6", C "proc_memory_maps" 6)])
+    | _ => None
+    end
   else if seq meth "cpu_num" then match p with FreeBSD => Some (scalar (M K "cpunum")) | _ => None end
   else if seq meth "num_threads" then
     match p with OpenBSD => None | _ => Some (scalar (C "proc_num_threads" 0)) end
@@ -293,6 +320,9 @@ Definition doc_layout_osx (meth : string) : option dlayout :=
     Some (listof "popenfile" [("path", C "proc_open_files" 0); ("fd", C "proc_open_files" 1)])
   else if seq meth "num_fds" then Some (scalar (C "proc_num_fds" 0))
   else if seq meth "nice_get" then Some (scalar (C "getpriority" 0))
+  else if seq meth "cmdline" then Some (cmdline_l "proc_cmdline")
+  else if seq meth "environ" then Some environ_l
+  else if seq meth "net_connections" then Some (pconn_l "proc_net_connections" [2; 5])
   else None.
 
 (* Solaris and AIX share the psinfo-based layout; rss/vms arrive in KiB *)
@@ -328,7 +358,32 @@ Definition doc_layout_procfs (p : plat) (meth variant : string) : option dlayout
                                 ("read_bytes", C "proc_io_counters" 2); ("write_bytes", C "proc_io_counters" 3)])
     | _ => None
     end
-  else if seq meth "threads" then match p with AIX => Some pthread_l | _ => None end
+  else if seq meth "threads" then
+    match p with
+    | AIX => Some pthread_l
+    | _ => Some (listof "pthread" [("id", C "os.listdir" 0); ("user_time", C "query_process_thread" 0);
+                                   ("system_time", C "query_process_thread" 1)])      (* /proc/pid/lwp/<tid> *)
+    end
+  else if seq meth "cmdline" then
+    Some (match p with
+          | AIX => cmdline_l "proc_args"
+          | _ => tuple "list" [("0", C "proc_name_and_args" 1); ("1", C "proc_name_and_args" 1)]   (* psinfo args, split at blanks *)
+          end)
+  else if seq meth "name" then match p with SunOS => Some (scalar (C "proc_name_and_args" 0)) | _ => None end
+  else if seq meth "environ" then Some environ_l
+  else if seq meth "net_connections" then
+    Some (pconn_l "net_connections" (match p with SunOS => [5] | _ => [2; 5] end))
+  else if seq meth "open_files" then
+    match p with
+    | SunOS => Some (listof "popenfile" [("path", C "os.readlink" 0); ("fd", C "os.listdir" 0)])   (* /proc/pid/path/<fd> *)
+    | _ => None
+    end
+  else if seq meth "memory_maps" then
+    match p with
+    | SunOS => Some (listof "tuple" [("0", DFun "proc_memory_maps" [0; 1]); ("1", C "proc_memory_maps" 2); ("2", C "os.readlink" 0);
+                                     ("3", C "proc_memory_maps" 4); ("4", C "proc_memory_maps" 5); ("5", C "proc_memory_maps" 6)])
+    | _ => None
+    end
   else None.
 
 Definition win_pmem (f : string -> Z -> dsrc) : list (string * dsrc) :=
@@ -365,6 +420,13 @@ Definition doc_layout_win (meth variant : string) : option dlayout :=
   else if seq meth "num_handles" then Some (scalar (C "proc_num_handles" 0))
   else if seq meth "ppid" then Some (scalar (C "ppid_map" 0))
   else if seq meth "threads" then Some pthread_l
+  else if seq meth "cmdline" then Some (cmdline_l "proc_cmdline")
+  else if seq meth "environ" then Some environ_l
+  else if seq meth "net_connections" then Some (pconn_l "net_connections" [2; 5])
+  else if seq meth "open_files" then Some (listof "popenfile" [("path", C "proc_open_files" 0); ("fd", DConst (-1))])
+  else if seq meth "memory_maps" then
+    Some (listof "tuple" [("0", DFun "proc_memory_maps" [0]); ("1", C "proc_memory_maps" 1); ("2", C "proc_memory_maps" 2);
+                          ("3", C "proc_memory_maps" 3)])
   else None.
 
 Definition doc_layout (p : plat) (meth variant : string) : option dlayout :=
@@ -395,7 +457,7 @@ Definition doc_deps (p : plat) (meth : string) : option (list (string * string))
 Definition layout_methods : list string :=
   ["ppid"; "create_time"; "name"; "terminal"; "uids"; "gids"; "cpu_times"; "memory_info"; "memory_full_info";
    "num_ctx_switches"; "io_counters"; "threads"; "open_files"; "num_fds"; "nice_get"; "cpu_num"; "num_threads";
-   "num_handles"].
+   "num_handles"; "cmdline"; "environ"; "net_connections"; "memory_maps"].
 Definition all_plats : list plat := [FreeBSD; OpenBSD; NetBSD; MacOS; SunOS; AIX; Windows].
 Definition doc_keys : list (plat * string * string) :=
   flat_map (fun p => flat_map (fun m => flat_map (fun v =>
@@ -430,6 +492,33 @@ Definition doc_names (p : plat) : list string :=
                 "IDLE_PRIORITY_CLASS"; "NORMAL_PRIORITY_CLASS"; "REALTIME_PRIORITY_CLASS";
                 "IOPRIO_VERYLOW"; "IOPRIO_LOW"; "IOPRIO_NORMAL"; "IOPRIO_HIGH"; "CONN_DELETE_TCB"]
   end.
+
+(* fields of the named tuples of the system-wide functions (docs/index.rst, qualifiers read literally:
+   "UNIX" = every platform but Windows, "BSD" = FreeBSD/OpenBSD/NetBSD) *)
+Definition is_unix (p : plat) : bool := match p with Windows => false | _ => true end.
+Definition is_bsd (p : plat) : bool := match p with FreeBSD | OpenBSD | NetBSD => true | _ => false end.
+Definition opt_fields (b : bool) (l : list string) : list string := if b then l else [].
+Definition sys_functions : list string := ["cpu_times"; "virtual_memory"; "swap_memory"; "disk_io_counters"; "net_io_counters"].
+Definition doc_sys_fields (p : plat) (fn : string) : list string :=
+  if seq fn "cpu_times" then
+    ["user"; "system"; "idle"] ++ opt_fields (is_unix p) ["nice"] ++ opt_fields (is_bsd p) ["irq"]
+    ++ opt_fields (negb (is_unix p)) ["interrupt"; "dpc"]                       (* iowait, softirq, steal, guest*: Linux *)
+  else if seq fn "virtual_memory" then
+    ["total"; "available"; "percent"; "used"; "free"] ++ opt_fields (is_unix p) ["active"; "inactive"]
+    ++ opt_fields (is_bsd p) ["buffers"; "cached"; "shared"]
+    ++ opt_fields (is_bsd p || match p with MacOS => true | _ => false end) ["wired"]
+  else if seq fn "swap_memory" then ["total"; "used"; "free"; "percent"; "sin"; "sout"]
+  else if seq fn "disk_io_counters" then
+    ["read_count"; "write_count"; "read_bytes"; "write_bytes"]
+    ++ opt_fields (negb match p with OpenBSD | NetBSD => true | _ => false end) ["read_time"; "write_time"]
+    ++ opt_fields match p with FreeBSD => true | _ => false end ["busy_time"]
+  else if seq fn "net_io_counters" then
+    ["bytes_sent"; "bytes_recv"; "packets_sent"; "packets_recv"; "errin"; "errout"; "dropin"; "dropout"]
+  else [].
+(* finding: on Solaris and AIX cpu_times() has no "nice" but an "iowait" field, virtual_memory() no
+   "active"/"inactive" -- the documentation qualifies these fields as (UNIX) resp. (Linux) *)
+Definition known_sys_fields (p : plat) (fn : string) : bool :=
+  match p with SunOS | AIX => seq fn "cpu_times" || seq fn "virtual_memory" | _ => false end.
 
 (* public Process methods the documentation gives for the platform ("Availability:") *)
 Definition doc_methods_common : list string :=
